@@ -35,6 +35,10 @@ FIXED = ['18446744073709551615', '18446744073709551616', '9999999999999999999999
 def e2(rnd, count):
     # numbers at and beyond 2^64 (the reader reduces modulo 2^64), leading zeros, lone prefixes, atoms glued to parentheses ...
     yield ['parse %d %s' % (len(s), ' '.join(str(ord(c)) for c in s)) for s in FIXED]
+    # one long-lived process: thousands of inputs that end inside open lists, then well-formed lists again (nothing may accumulate)
+    def line(s):
+        return 'parse %d %s' % (len(s), ' '.join(str(ord(c)) for c in s))
+    yield [line('((((a'), line('(((( 1 (b'), line('(a (b (c')] * 1100 + [line(x) for x in ('(a (b))', '((((a))))', '()', '(1 (2 (3 (4))))')]
     for _ in range(count):
         sc = []
         for _ in range(200):
